@@ -25,6 +25,8 @@ if ROUND == '11':
     MAP = {'A': 'S', 'B': 'T'}
 if ROUND == '12':
     MAP = {'A': 'U', 'B': 'V'}
+if ROUND == '13':
+    MAP = {'A': 'W', 'B': 'X'}
 for p in sys.argv[1:]:
     notes=open('/tmp/wt/%s/seeded/NOTES.md'%p).read()
     unconfirmed = []
